@@ -617,6 +617,8 @@ class ExcelModel:
 
     def compile(self, inputs, outputs):
         dsp = self.dsp.shrink_dsp(inputs=inputs, outputs=outputs)
+        if sh.SELF in dsp.default_values:  # Ranges read unlisted blank cells
+            dsp.set_default_value(sh.SELF, dsp)  # from the run they are in.
         inp, stack = set(inputs), list(inputs)
         nodes = dsp.nodes
         while stack:  # A name input reaches its range and the range its cells.
@@ -648,6 +650,8 @@ class ExcelModel:
             wildcard=False
         )
 
+        if sh.SELF in dsp.default_values:
+            dsp.set_default_value(sh.SELF, dsp)
         for k, v in res.items():
             if k in dsp.data_nodes and k not in dsp.default_values:
                 dsp.set_default_value(k, getattr(v, 'value', v))
